@@ -2,6 +2,7 @@
 EXTENDS IsaPic16
 CONSTANTS Cpu, K, Salt, Step
 VARIABLES form, ops, pc
+AddrMax == AddrMaxOf(Cpu)
 INSTANCE IsaGen
 ASSUME TableSane
 ASSUME Cardinality(DefinedOpcodes(FormsOfCpu, UnitBits)) = DefinedCount(Cpu)
